@@ -11,7 +11,7 @@
      outside the screen): the absolute screen position written, if any.
    - [win_cursor]: Window.ShowCursor adds the offsets of every level and clips nothing.
    - [draw_win]: Model.Draw: if the window's size is not the terminal's, the terminal is
-     resized first (Resize -> resize, which panics on a negative length); then one SetCell per
+     resized first (a window without a cell returns at once: commit ccf375f); then one SetCell per
      cell of the active screen (a wide cell skips its spacers), then ShowCursor at the
      terminal's cursor iff DECTCEM is set and the terminal is focused. *)
 From Vx Require Import base.Prelude base.ListX model.Colour model.Sgr model.Term model.TermCheck.
@@ -67,11 +67,18 @@ Fixpoint chain_nested (ch : list wlevel) (sc : Z * Z) : bool :=
 Definition win_ok (ch : list wlevel) : bool :=
   match ch with [] => false | l :: _ => (1 <=? wl_w l) && (1 <=? wl_h l) end.
 
-(* Model.Draw: the terminal afterwards, the SetCell calls (window coordinates), the ShowCursor call *)
-Definition draw_win (t : term) (ww wh : Z) (focused : bool)
+(* Model.Draw before commit ccf375f (no test for a window without a cell): the terminal
+   afterwards, the SetCell calls (window coordinates), the ShowCursor call *)
+Definition draw_win_unfixed (t : term) (ww wh : Z) (focused : bool)
   : tres (term * list (Z * Z * tcell) * option (Z * Z)) :=
   t' <- (if (ww =? width t) && (wh =? height t) then TOk t else resize t ww wh) ;;
   TOk (t', draw t', if m_tcem (t_md t') && focused then Some (t_col t', t_row t') else None).
+
+(* Model.Draw: a window without a cell (width < 1 || height < 1) is left alone - no Resize, no
+   SetCell, no ShowCursor *)
+Definition draw_win (t : term) (ww wh : Z) (focused : bool)
+  : tres (term * list (Z * Z * tcell) * option (Z * Z)) :=
+  if (ww <? 1) || (wh <? 1) then TOk (t, [], None) else draw_win_unfixed t ww wh focused.
 
 (* what reaches the screen *)
 Definition host_writes (ch : list wlevel) (sc : Z * Z) (calls : list (Z * Z * tcell)) : list (Z * Z * tcell) :=
@@ -127,22 +134,17 @@ Definition wdraw_model_ok (c : wdraw_case) : bool :=
 (* C05 on one observed Draw, read off the observation and the window alone: Draw returned,
    every cell of the host screen that changed lies in the visible part of the window, the
    cursor handed to the host (if any) lies in the window's rectangle, and the terminal
-   afterwards has the window's size and satisfies the state predicate of C05 *)
+   afterwards satisfies the state predicate of C05 and has the window's size if the window has
+   a cell (for a window without a cell the first three say: nothing changed, no cursor) *)
 Definition wdraw_holds (c : wdraw_case) : bool :=
   let '(h, (sc, ch, foc), (out, o, (vis, ccol, crow), cells)) := c in
   (out =? 0)
   && forallb (fun k : hcell => in_clip ch sc (fst (fst k)) (snd (fst k))) cells
   && (negb vis || in_rect ch ccol crow)
   && obs_wf o
-  && match ch with [] => false | l :: _ => (o_cols o =? wl_w l) && (o_rows o =? wl_h l) end.
+  && match ch with [] => false | l :: _ => negb (win_ok ch) || ((o_cols o =? wl_w l) && (o_rows o =? wl_h l)) end.
 
 Definition c05_wdraw_mismatches (cases : list wdraw_case) : list Z :=
   bad_indices (fun c => negb (wdraw_model_ok c)) cases.
 Definition c05_wdraw_violations (cases : list wdraw_case) : list Z :=
   bad_indices (fun c => negb (wdraw_holds c)) cases.
-
-(* the class "draw-empty-window": Draw into a window without a cell (Width <= 0 or Height <= 0:
-   what Window.New returns for an offset at or beyond its parent's edge) *)
-Definition wdraw_known (c : wdraw_case) : bool :=
-  let '(h, (sc, ch, foc), ob) := c in negb (win_ok ch).
-Definition c05_wdraw_known (cases : list wdraw_case) : list Z := bad_indices wdraw_known cases.
